@@ -624,6 +624,9 @@ func c34Check(col *stat.Collector, rt stat.Fataler, plan c34Plan, run c34Run) (n
 			os.WriteFile(d+"/c34-obs.json", b, 0o644)
 		}
 	}}
+	if os.Getenv("C34_DEBUG_ALL") != "" {
+		c.dump()
+	}
 	if run.Res.Deadlock || run.Pending > 0 {
 		c.Fail(rt, "C34.no-hang", fmt.Sprintf("%d lock calls or releases never returned (%s)", run.Pending, run.Res), plan)
 	}
@@ -677,32 +680,135 @@ func c34Check(col *stat.Collector, rt stat.Fataler, plan c34Plan, run c34Run) (n
 	byRet := append([]*c34Acq(nil), run.Acqs...)
 	sort.SliceStable(byRet, func(i, j int) bool { return byRet[i].RetOrd < byRet[j].RetOrd })
 	assigned := map[string]bool{}
+	// A WithContext call makes one attempt after the other, each with a fresh value, and only the last one is granted.
+	// An earlier attempt can have had its value in a majority of the keys on the server and still have failed for the
+	// client (replies later than TryNextAfter behind the other scripts queued on the locker's only connection); try()
+	// returns from such an attempt only after every monitor has run its release script. The granted attempt is told
+	// apart by what the client did: at least `majority` of the keys its scripts set have not been sent a release
+	// script for that value when the call returns (monitors of the keys that count as acquired only release after the
+	// lock context has ended). A value with fewer such keys belongs to an attempt that had been given up.
+	setKeys := map[string]map[string]bool{} // value -> keys its set scripts took
+	delOrd := map[string]map[string]int64{} // value -> key -> order of the first release script for it
+	for _, s := range run.Scripts {
+		switch {
+		case s.Kind == "set" && s.OK:
+			if setKeys[s.Val] == nil {
+				setKeys[s.Val] = map[string]bool{}
+			}
+			setKeys[s.Val][s.Key] = true
+		case s.Kind == "delkey":
+			if delOrd[s.Val] == nil {
+				delOrd[s.Val] = map[string]int64{}
+			}
+			if _, seen := delOrd[s.Val][s.Key]; !seen {
+				delOrd[s.Val][s.Key] = s.Ord
+			}
+		}
+	}
+	givenUpBefore := func(val string, ord int64) bool {
+		kept := 0
+		for k := range setKeys[val] {
+			if d, released := delOrd[val][k]; !released || d > ord {
+				kept++
+			}
+		}
+		return kept < plan.Majority
+	}
+	// Candidates of a granted call: values that scripts of its locker brought into a majority of the name's keys
+	// between the call and its return, whose first script ran after the call (an attempt draws its value inside the
+	// call), whose latest key was taken at the very instant the call returned (try() returns as soon as the reply
+	// for the last key it needs is in; the fake answers at the instant it executes, and the value of an attempt that
+	// was granted to another call long before may reach its majority late, with the keys it takes in the background)
+	// and that had not been given up when the call returned. Calls of one locker on one name overlap (several
+	// actors share a locker), so a value can be a candidate of more than one call and a call can have more than one
+	// candidate: a call with exactly one candidate takes it, which removes it from the others, until nothing changes;
+	// what then still has several candidates is ambiguous and skipped by the clauses that need the value.
+	firstOrd := map[string]int64{}
+	for _, s := range run.Scripts {
+		if _, seen := firstOrd[s.Val]; !seen {
+			firstOrd[s.Val] = s.Ord
+		}
+	}
+	candsOf := map[*c34Acq][]string{}
+	givenUpSeen := map[string]bool{}
+	mixedAcq := map[*c34Acq]bool{}
+	soft := map[string]bool{} // candidates of a call that is ambiguous for good: never bound to another call either
 	for _, a := range byRet {
 		if !a.Acquired {
 			continue
 		}
-		var cands []string
-		seen := map[string]bool{}
-		// a forcing and a non-forcing call of one locker on one name at the same time: their values cannot be told apart
-		mixed := false
-		for _, b := range run.Acqs {
-			if b != a && b.StartOrd != 0 && b.Locker == a.Locker && b.Name == a.Name && (b.Kind == "force") != (a.Kind == "force") && b.StartOrd < a.RetOrd && (!b.Returned || b.RetOrd > a.StartOrd) {
-				mixed = true
+		// (Close ends every lock context: the monitors of a lock that is being granted at that moment may release first)
+		closedBy := false
+		for _, at := range eventAt("close", a.Locker) {
+			if at <= a.RetUs {
+				closedBy = true
 			}
 		}
+		var cands []string
+		seen := map[string]bool{}
+		listed := map[string]bool{}
+		atReturn := map[string]bool{} // the value's latest successful set script in the call ran at the instant of the return
 		for i := len(run.Scripts) - 1; i >= 0; i-- {
 			s := run.Scripts[i]
-			if s.Ord > a.StartOrd && s.Ord < a.RetOrd && s.Locker == a.Locker && s.Name == a.Name && s.Kind == "set" && s.OK && s.Count >= plan.Majority && !assigned[s.Val] && !seen[s.Val] {
-				seen[s.Val] = true
+			if s.Ord > a.StartOrd && s.Ord < a.RetOrd && s.Locker == a.Locker && s.Name == a.Name && s.Kind == "set" && s.OK {
+				if !seen[s.Val] {
+					seen[s.Val] = true
+					atReturn[s.Val] = s.AtUs == a.RetUs
+				}
+				if s.Count < plan.Majority || !atReturn[s.Val] || firstOrd[s.Val] < a.StartOrd || listed[s.Val] {
+					continue
+				}
+				listed[s.Val] = true
+				if !closedBy && givenUpBefore(s.Val, a.RetOrd) {
+					givenUpSeen[s.Val] = true
+					continue
+				}
 				cands = append(cands, s.Val)
 			}
 		}
-		if mixed {
+		candsOf[a] = cands
+		// a forcing and a non-forcing call of one locker on one name at the same time: their values cannot be told apart
+		for _, b := range run.Acqs {
+			if b != a && b.StartOrd != 0 && b.Locker == a.Locker && b.Name == a.Name && (b.Kind == "force") != (a.Kind == "force") && b.StartOrd < a.RetOrd && (!b.Returned || b.RetOrd > a.StartOrd) {
+				mixedAcq[a] = true
+			}
+		}
+		if mixedAcq[a] {
+			for _, v := range cands {
+				soft[v] = true
+			}
+		}
+	}
+	for changed := true; changed; {
+		changed = false
+		for _, a := range byRet {
+			if !a.Acquired || mixedAcq[a] || len(candsOf[a]) != 1 || assigned[candsOf[a][0]] {
+				continue
+			}
+			v := candsOf[a][0]
+			assigned[v], changed = true, true
+			for _, b := range byRet {
+				if b == a || mixedAcq[b] {
+					continue
+				}
+				kept := candsOf[b][:0:0]
+				for _, w := range candsOf[b] {
+					if w != v {
+						kept = append(kept, w)
+					}
+				}
+				candsOf[b] = kept
+			}
+		}
+	}
+	for _, a := range byRet {
+		if !a.Acquired {
+			continue
+		}
+		cands := candsOf[a]
+		if mixedAcq[a] {
 			a.Ambig = true
 			cls["ambiguous-binding"] = true
-			for _, v := range cands {
-				assigned[v] = true
-			}
 			continue
 		}
 		if len(cands) == 0 {
@@ -746,8 +852,7 @@ func c34Check(col *stat.Collector, rt stat.Fataler, plan c34Plan, run c34Run) (n
 			}
 			c.Fail(rt, "C34.acquired-majority", fmt.Sprintf("%s succeeded although none of the values its locker wrote during the call was in %d of the %d keys at any script execution: %v", describe(a), plan.Majority, plan.Majority*2-1, mine), plan)
 		}
-		a.Val, a.Ambig = cands[0], len(cands) > 1
-		assigned[a.Val] = true
+		a.Val, a.Ambig = cands[0], len(cands) > 1 || soft[cands[0]]
 		if a.Ambig {
 			cls["ambiguous-binding"] = true
 		}
@@ -758,6 +863,11 @@ func c34Check(col *stat.Collector, rt stat.Fataler, plan c34Plan, run c34Run) (n
 		byID[a.ID] = a
 		if a.Acquired && !a.Ambig {
 			byVal[a.Val] = a
+		}
+	}
+	for v := range givenUpSeen {
+		if byVal[v] == nil {
+			cls["earlier-attempt-reached-majority-on-server"] = true
 		}
 	}
 	// ---- clause 3: the holder's context is done before it releases a key
@@ -945,6 +1055,13 @@ func c34Check(col *stat.Collector, rt stat.Fataler, plan c34Plan, run c34Run) (n
 					excused = true
 				} else if _, lost := lostFor(first, second.RetUs); lost {
 					excused = true
+				} else if _, lost := lostFor(second, second.RetUs); lost {
+					// "first" and "second" are the order in which the calls returned. Replies that arrive at one virtual
+					// instant are handed to their callers in either order: the call that returned second may have been
+					// served first by the server, have lost its key to another client's DEL and seen it taken by the
+					// other call, all at that instant (SET v1, DEL, SET v2 at 1000 us; the calls return v2, v1). Its value
+					// was in a majority once (a value that never was has no loss) and is not any more: clause 2 times it.
+					excused = true
 				}
 				for _, at := range eventAt("kill", first.Locker) {
 					if at <= second.RetUs {
@@ -952,7 +1069,7 @@ func c34Check(col *stat.Collector, rt stat.Fataler, plan c34Plan, run c34Run) (n
 					}
 				}
 				if !excused {
-					c.Fail(rt, "C34.mutual-exclusion", fmt.Sprintf("two live holders of %q at %d us: %s and %s; the first still owned its majority", a.Name, second.RetUs, describe(first), describe(second)), plan)
+					c.Fail(rt, "C34.mutual-exclusion", fmt.Sprintf("two live holders of %q at %d us: %s and %s; neither had lost its majority", a.Name, second.RetUs, describe(first), describe(second)), plan)
 				}
 				cls["overlap-after-loss"] = true
 			}
@@ -963,6 +1080,21 @@ func c34Check(col *stat.Collector, rt stat.Fataler, plan c34Plan, run c34Run) (n
 		if s.Kind == "set" {
 			lockerOfVal[s.Val] = s.Locker
 		}
+	}
+	// notGranted: no call of the locker on the name returned a lock at an instant at which the value took a key (try()
+	// returns at the instant of the reply for the last key it needs): the attempt with that value was given up.
+	notGranted := func(val string, locker int, name string) bool {
+		for _, s := range run.Scripts {
+			if s.Val != val || s.Kind != "set" || !s.OK {
+				continue
+			}
+			for _, b := range run.Acqs {
+				if b.Acquired && b.Locker == locker && b.Name == name && b.RetUs == s.AtUs {
+					return false
+				}
+			}
+		}
+		return true
 	}
 	// ---- clause 4: waiters are woken up
 	parkedDuringEvent := false
@@ -979,6 +1111,7 @@ func c34Check(col *stat.Collector, rt stat.Fataler, plan c34Plan, run c34Run) (n
 			stranded := false
 			if plan.Lockers[a.Locker].NoLoop && plan.Majority >= 2 {
 				took := map[string]bool{}
+				lostTo := map[string]bool{} // values of attempts of the same locker that refused a SET of the locker during the call
 				for _, s := range run.Scripts {
 					if s.Locker != a.Locker || s.Name != a.Name || s.Ord < a.StartOrd || s.Ord > a.RetOrd {
 						continue
@@ -986,10 +1119,21 @@ func c34Check(col *stat.Collector, rt stat.Fataler, plan c34Plan, run c34Run) (n
 					if s.Kind == "set" && s.OK {
 						took[s.Val] = true
 					}
+					if s.Kind == "set" && !s.OK && s.HadPrev {
+						if l, known := lockerOfVal[s.Prev]; known && l == a.Locker {
+							lostTo[s.Prev] = true
+						}
+					}
 					if s.Kind == "delkey" && s.OK && took[s.Val] {
 						if l := truth[s.Val]; l == nil || l.MajAt < 0 {
 							stranded = true
 						}
+					}
+					// the same with an attempt that began before this call, or that had its majority on the server and was
+					// given up all the same (replies later than TryNextAfter): the call lost against one of its keys, which
+					// the attempt then deleted without having been granted
+					if s.Kind == "delkey" && s.OK && lostTo[s.Val] && notGranted(s.Val, a.Locker, a.Name) {
+						stranded = true
 					}
 				}
 			}
@@ -997,18 +1141,31 @@ func c34Check(col *stat.Collector, rt stat.Fataler, plan c34Plan, run c34Run) (n
 				cls["noloop-local-waiter-stranded"] = true
 				continue
 			}
-			// Signature of finding C34.noloop-timeout-waiter-stranded: NoLoopTracking and an attempt of this call that
-			// failed because a script on a key took longer than TryNextAfter (not because somebody holds the lock). After a
-			// failed attempt WithContext only waits for an invalidation; with NOLOOP the attempt's own clean-up deletions
-			// are silent, and if the lock is free nobody else will ever touch its keys.
+			// Signature of finding C34.noloop-timeout-waiter-stranded: an attempt of this call failed because scripts took
+			// longer than TryNextAfter (not because somebody holds the lock), and nothing the attempt did can come back to
+			// the locker as an invalidation. After a failed attempt WithContext only waits for an invalidation (or a local
+			// release); if the lock is free, or becomes free unseen, nobody else will ever touch its keys. Two ways:
+			// with NOLOOP the attempt's own clean-up deletions are silent;
+			// without NOLOOP when none of the locker's scripts changed a key at all: the first use of a script is
+			// EVALSHA -> NOSCRIPT -> EVAL, and when the NOSCRIPT answer arrives after the deadline of the key the EVAL is
+			// never sent, so no key is set, the clean-up deletes nothing, and the lock of another locker that was never met
+			// is released without this connection tracking its keys (TryNextAfter 5 ms, the first scripts for keys 0 and 1
+			// take 7 ms: 2 failures, no SET executed, WithContext returns its deadline 2 s later with the lock free).
 			// (Observed as: a slowed script on the locker's only connection during the call - it also delays the scripts
 			// queued behind it - and the locker's last attempt on the name met no key held by another locker.)
-			timedOut := false
-			if plan.Lockers[a.Locker].NoLoop {
+			// evidence over the locker's scripts on the name from the call up to (maxOrd, maxUs)
+			strandedBy := func(maxOrd, maxUs int64) bool {
 				// the last attempt of this locker on the name before everything went quiet: did it meet a foreign value?
 				slowed, lastVal, contended := false, "", false
+				changed := false // a script of this locker changed a key of the name during the call
 				for _, s := range run.Scripts {
-					if s.Locker == a.Locker && s.Name == a.Name && s.Kind == "set" && s.Ord > a.StartOrd && s.Ord < a.RetOrd {
+					if s.Locker != a.Locker || s.Name != a.Name || s.Ord < a.StartOrd || s.Ord > maxOrd {
+						continue
+					}
+					if (s.Kind == "set" || s.Kind == "delkey") && s.OK {
+						changed = true
+					}
+					if s.Kind == "set" {
 						if s.Val != lastVal {
 							lastVal, contended = s.Val, false
 						}
@@ -1020,11 +1177,71 @@ func c34Check(col *stat.Collector, rt stat.Fataler, plan c34Plan, run c34Run) (n
 					}
 				}
 				for _, h := range run.SlowHits {
-					if h.Locker == a.Locker && h.AtUs >= a.StartUs && h.AtUs <= a.RetUs {
+					if h.Locker == a.Locker && h.AtUs >= a.StartUs && h.AtUs <= maxUs {
 						slowed = true
 					}
 				}
-				timedOut = slowed && !contended
+				// Scripts also outlast TryNextAfter without the plan's help, queued behind those of sibling calls on the
+				// locker's only connection (3 waiters x EVALSHA, NOSCRIPT, EVAL at 1 ms each against TryNextAfter 5 ms). The
+				// evidence is an attempt of the locker during the call that got every key it asked for (no SET refused) and
+				// yet was cleaned up by its owner without having been granted (no call of the locker on the name returned a
+				// lock at an instant at which the value took a key): only errors can have failed it, and with the
+				// connection alive the only error is the timeout.
+				if plan.Lockers[a.Locker].NoLoop && len(eventAt("kill", a.Locker)) == 0 {
+					type att struct {
+						sets           int
+						refused, delOK bool
+					}
+					atts := map[string]*att{}
+					for _, s := range run.Scripts {
+						if s.Locker != a.Locker || s.Name != a.Name || s.Ord < a.StartOrd || s.Ord > maxOrd {
+							continue
+						}
+						t := atts[s.Val]
+						if t == nil {
+							t = &att{}
+							atts[s.Val] = t
+						}
+						switch {
+						case s.Kind == "set" && s.OK:
+							t.sets++
+						case s.Kind == "set":
+							t.refused = true
+						case s.Kind == "delkey" && s.OK:
+							t.delOK = true
+						}
+					}
+					for v, t := range atts {
+						if t.sets == 0 || t.refused || !t.delOK {
+							continue
+						}
+						if notGranted(v, a.Locker, a.Name) {
+							slowed = true
+						}
+					}
+				}
+				return slowed && !contended && (plan.Lockers[a.Locker].NoLoop || !changed)
+			}
+			timedOut := strandedBy(a.RetOrd, a.RetUs)
+			if !timedOut {
+				// The waiter sat out most of its wait without the locker running a single script for the name (a parked
+				// waiter that is never woken makes no attempt) and was woken in the end, by the release of a sibling call
+				// that started after the others had run into their deadlines, too late for its own: what stranded it is judged
+				// by what happened before that silence.
+				lastOrd, lastUs := a.StartOrd, a.StartUs
+				gapOrd, gapFrom, gapLen := int64(0), int64(0), int64(0)
+				for _, s := range run.Scripts {
+					if s.Locker != a.Locker || s.Name != a.Name || s.Ord < a.StartOrd || s.Ord > a.RetOrd {
+						continue
+					}
+					if s.AtUs-lastUs > gapLen {
+						gapOrd, gapFrom, gapLen = lastOrd, lastUs, s.AtUs-lastUs
+					}
+					lastOrd, lastUs = s.Ord, s.AtUs
+				}
+				if gapLen > (a.RetUs-a.StartUs)/2 && gapOrd > a.StartOrd {
+					timedOut = strandedBy(gapOrd, gapFrom)
+				}
 			}
 			if timedOut && c.c.Known("C34.noloop-timeout-waiter-stranded") {
 				cls["noloop-timeout-waiter-stranded"] = true
@@ -1242,8 +1459,39 @@ func genC34Plan(rt *rapid.T) c34Plan {
 func TestVerif_C34_Lock(t *testing.T) {
 	// see TestVerif_C39_Aside: Go 1.25.0 corrupts the specials list when WaitGroup.Add runs in parallel in a bubble
 	defer runtime.GOMAXPROCS(runtime.GOMAXPROCS(1))
-	c := stat.For("C34", "locks").Rule("timed plans in a synctest bubble: 2-4 rueidislock lockers (own clients, shared prefix, KeyMajority 1-3, KeyValidity 200-2000 ms, TryNextAfter 5/20 ms, NoLoopTracking and FallbackSETPX on/off) and 2-6 actors (several may share a locker) x 1-3 calls of WithContext / TryWithContext (ForceWithContext in 1 plan of 6) on 1-2 names with hold times 0 .. validity+30 ms, then the cancel function; KeyPrefix from {default, p, app:locks, a:b:c, lock-s.v1/x{y}} and names from {a, b, job:42, {t}:x, a:b:c}; in 2 of 3 plans with majority >= 2 the server takes 1.4 x TryNextAfter for the first 1-2 scripts a locker sends for 1-2 generated keys (the attempt gives the key up and is granted with the others); events at generated instants by another client: DEL of one / all keys of a name, DEL of one key 10/30 ms after a generated call was granted, PEXPIRE 1-30 ms, FLUSHALL, a stale value (SET NX PX 1-2 validity) on one key; connection kill of a locker, Locker.Close; script latency 0.1-1 ms; observed: lock contexts (watcher goroutines), every lock script executed by the server with the liveness of all lock contexts at that instant, the key values from the server log; oracle: (5) a granted lock's value was in >= majority keys, (3) a holder's context is done when the server executes a release script that takes its value below the majority, (2) a context is done within 5 ms after its value left the majority (connection not killed), (1) without Force no two holders are live unless the first had lost its majority, (4) no WithContext waits until its deadline of all hold times + 10 validity periods, nothing hangs; non-trivial = an external deletion/expiry/flush or a forced takeover while a WithContext call on that name was waiting, or >= 3 lockers contending for one name at one instant")
+	c := stat.For("C34", "locks").Rule("timed plans in a synctest bubble: 2-4 rueidislock lockers (own clients, shared prefix, KeyMajority 1-3, KeyValidity 200-2000 ms, TryNextAfter 5/20 ms, NoLoopTracking and FallbackSETPX on/off) and 2-6 actors (several may share a locker) x 1-3 calls of WithContext / TryWithContext (ForceWithContext in 1 plan of 6) on 1-2 names with hold times 0 .. validity+30 ms, then the cancel function; KeyPrefix from {default, p, app:locks, a:b:c, lock-s.v1/x{y}} and names from {a, b, job:42, {t}:x, a:b:c}; in 2 of 3 plans with majority >= 2 the server takes 1.4 x TryNextAfter for the first 1-2 scripts a locker sends for 1-2 generated keys (the attempt gives the key up and is granted with the others); events at generated instants by another client: DEL of one / all keys of a name, DEL of one key 10/30 ms after a generated call was granted, PEXPIRE 1-30 ms, FLUSHALL, a stale value (SET NX PX 1-2 validity) on one key; connection kill of a locker, Locker.Close; script latency 0.1-1 ms; observed: lock contexts (watcher goroutines), every lock script executed by the server with the liveness of all lock contexts at that instant, the key values from the server log; oracle: (5) a granted lock's value was in >= majority keys, (3) a holder's context is done when the server executes a release script that takes its value below the majority, (2) a context is done within 5 ms after its value left the majority (connection not killed), (1) without Force no two holders are live unless one of them had lost its majority (replies of one virtual instant are handed over in either order), (4) no WithContext waits until its deadline of all hold times + 10 validity periods, nothing hangs; non-trivial = an external deletion/expiry/flush or a forced takeover while a WithContext call on that name was waiting, or >= 3 lockers contending for one name at one instant")
 	defer c.Flush()
+	// VERIF_REPLAY_JSON=<plan.json | violation.json>: run one recorded plan C34_REPLAY_N times (default 1). The outcome
+	// of a plan depends on the goroutine schedule inside the bubble, so a rapid fail file of a rarely failing plan may
+	// not reproduce (rapid then even stores the bit stream of another plan); the plan itself is in "case".
+	if p := os.Getenv("VERIF_REPLAY_JSON"); p != "" {
+		b, err := os.ReadFile(p)
+		if err != nil {
+			t.Fatal(err)
+		}
+		var wrapped struct {
+			Case json.RawMessage `json:"case"`
+		}
+		if json.Unmarshal(b, &wrapped) == nil && len(wrapped.Case) > 0 {
+			b = wrapped.Case
+		}
+		var plan c34Plan
+		if err := json.Unmarshal(b, &plan); err != nil {
+			t.Fatal(err)
+		}
+		n, _ := strconv.Atoi(os.Getenv("C34_REPLAY_N"))
+		for i := 0; i < max(n, 1); i++ {
+			t.Run(fmt.Sprintf("replay-%d", i), func(t *testing.T) {
+				run := c34Exec(t, plan)
+				if run.Res.Frozen || run.Unsupp {
+					t.Skip("inconclusive")
+				}
+				_, classes := c34Check(c, t, plan, run)
+				t.Log(classes)
+			})
+		}
+		return
+	}
 	rapid.Check(t, func(rt *rapid.T) {
 		plan := genC34Plan(rt)
 		saveCase("c34", plan)
